@@ -502,7 +502,9 @@ class HybridLoad:
                 peak_day_diff = 0
 
             last_avg_hour = 0.0
-            if peak_day_diff < 0:
+            # a month with a peak in one direction only has no conflict at noon: place that peak like a separate-day peak
+            single_peak = not (self.monthly_peak_cl[i] > 0 and self.monthly_peak_hl[i] > 0)
+            if peak_day_diff < 0 or (peak_day_diff == 0 and single_peak):
                 # monthly peak heating day occurs after peak cooling day
                 # monthly average conditions before cooling peak
                 if self.monthly_peak_cl[i] > 0 and ipf[i]:
